@@ -50,6 +50,7 @@ Definition check (c : case) : bool :=
    signature verifies (unless the key is the identity / zero), at most one candidate
    string is accepted and it is the one Sign returned, H is in G1 *)
 Definition prop_check (c : case) : bool :=
+  check c &&   (* the closed form is the property's own statement (C01_verify_iff_canonical_sig) *)
   match c with
   | SigCase sk h idpk sign cands =>
       let k := be2z (hex sk) in
